@@ -67,8 +67,10 @@ fn %(name)s() {
 ''' % dict(name=name, k=lit(key), n=lit(nonce), len=n)
 
 
-def h_box_literal(name, pk, sk, q, nonce, n):
-    return rs.hdr(("barrier", "fmt") + rs.MAC + ("scalarmult",)) + r'''
+def h_box_literal(name, pk, sk, q, nonce, n, part="easy"):
+    """part: easy (box == secretbox under the DH key, afternm form) | object (DryocBox bytes == classic bytes) |
+    roundtrip (open(box(m)) == m). Split because three to four cipher runs in one program exhaust memory."""
+    head = r'''
 fn %(name)s() {
     let pk: [u8; 32] = %(pk)s; let sk: [u8; 32] = %(sk)s; let nonce: [u8; 24] = %(n)s; let q: [u8; 32] = %(q)s;
     unsafe { AES.sm_fixed = true; AES.sm_fixed_out = q; }
@@ -76,28 +78,42 @@ fn %(name)s() {
     wit!(W_2, &m);
     let tagv: [u8; 16] = kani::any();
     unsafe { let mut j = 0; while j < MAC_INST { AES.mac_out[j] = tagv; j += 1; } }
-    let bk = hsalsa20_spec(&q, &[0u8; 16]);
-    let mut want = [0u8; %(len)d + 16];
-    assert!(crypto_secretbox_easy(&mut want, &m, &nonce, &bk).is_ok(), "EASY_OK");
     let mut got = [0u8; %(len)d + 16];
     assert!(crypto_box_easy(&mut got, &m, &nonce, &pk, &sk).is_ok(), "BOX_OK");
     kani::cover!(true, "encrypted");
-    assert!(got == want, "BOX_IS_SECRETBOX_UNDER_DH_KEY: crypto_box == crypto_secretbox under HSalsa20(X25519(sk, pk), 0^16)");
     unsafe { assert!(AES.sm_n == 1 && AES.sm_scalar[0] == sk && AES.sm_point[0] == pk, "BOX_DH_INPUTS: X25519(sender secret, recipient public)"); }
+'''
+    if part == "easy":
+        body = r'''
+    let bk = hsalsa20_spec(&q, &[0u8; 16]);
+    let mut want = [0u8; %(len)d + 16];
+    assert!(crypto_secretbox_easy(&mut want, &m, &nonce, &bk).is_ok(), "EASY_OK");
+    assert!(got == want, "BOX_IS_SECRETBOX_UNDER_DH_KEY: crypto_box == crypto_secretbox under HSalsa20(X25519(sk, pk), 0^16)");
     let mut c2 = [0u8; %(len)d]; let mut t2 = [0u8; 16];
     crypto_box_detached_afternm(&mut c2, &mut t2, &m, &nonce, &bk);
     let mut i = 0; while i < 16 { assert!(t2[i] == want[i], "AFTERNM_EQUALS_BOX: the precomputed-key form produces the same bytes"); i += 1; }
     i = 0; while i < %(len)d { assert!(c2[i] == want[16 + i], "AFTERNM_EQUALS_BOX: the precomputed-key form produces the same bytes"); i += 1; }
+}
+'''
+    elif part == "object":
+        body = r'''
     // object API (Vec container) produces the classic bytes
     let ob: crate::dryocbox::VecBox = crate::dryocbox::DryocBox::encrypt_to_vecbox(&m[..], &StackByteArray::<24>::from(nonce), &StackByteArray::<32>::from(pk), &StackByteArray::<32>::from(sk)).unwrap();
     let obytes = ob.to_vec();
     assert!(obytes.len() == %(len)d + 16, "OBJECT_EQUALS_CLASSIC");
-    i = 0; while i < %(len)d + 16 { assert!(obytes[i] == want[i], "OBJECT_EQUALS_CLASSIC: DryocBox::encrypt + to_vec == crypto_box_easy bytes"); i += 1; }
+    let mut i = 0; while i < %(len)d + 16 { assert!(obytes[i] == got[i], "OBJECT_EQUALS_CLASSIC: DryocBox::encrypt + to_vec == crypto_box_easy bytes"); i += 1; }
+    unsafe { assert!(AES.sm_n == 2 && AES.sm_scalar[1] == sk && AES.sm_point[1] == pk, "BOX_DH_INPUTS: the object API uses the same DH operands"); }
+}
+'''
+    else:
+        body = r'''
     let mut back = [0u8; %(len)d];
     assert!(crypto_box_open_easy(&mut back, &got, &nonce, &pk, &sk).is_ok(), "ROUNDTRIP_OK: the matching open call accepts");
     assert!(back == m, "ROUNDTRIP: open(seal(m)) == m");
+    unsafe { assert!(AES.sm_n == 2 && AES.sm_scalar[1] == sk && AES.sm_point[1] == pk, "BOX_DH_INPUTS: the open call uses the same DH operands"); }
 }
-''' % dict(name=name, pk=lit(pk), sk=lit(sk), q=lit(q), n=lit(nonce), len=n)
+'''
+    return rs.hdr(("barrier", "fmt") + rs.MAC + ("scalarmult",)) + (head + body) % dict(name=name, pk=lit(pk), sk=lit(sk), q=lit(q), n=lit(nonce), len=n)
 
 
 def h_object_secretbox(name, key, nonce, n):
@@ -181,10 +197,12 @@ def suites(tier, seed):
                               desc="NaCl secretbox construction, all layouts and round trip at a literal (key, nonce), symbolic %d-byte message" % n, bounds={"message_len": n, "key": "literal (seeded)"}))
         pk = [rnd.randrange(256) for _ in range(32)]; sk = [rnd.randrange(256) for _ in range(32)]; q = [rnd.randrange(256) for _ in range(32)]
         for n in ([5] if tier == "quick" else [0, 5, 33]):
-            name = "c01_box_literal_k%d_n%d" % (i, n)
-            src += h_box_literal(name, pk, sk, q, nonce, n)
-            hs.append(Harness(name, unwind=max(70, n + 30), timeout=2400, site="box (literal keys)",
-                              desc="crypto_box == secretbox under HSalsa20(X25519, 0); afternm and object API produce the same bytes; round trip; symbolic %d-byte message" % n, bounds={"message_len": n}))
+            for part, what in (("easy", "crypto_box == secretbox under HSalsa20(X25519, 0); afternm form produces the same bytes"),
+                               ("object", "DryocBox::encrypt + to_vec == crypto_box_easy bytes"), ("roundtrip", "open(box(m)) == m")):
+                name = "c01_box_literal_%s_k%d_n%d" % (part, i, n)
+                src += h_box_literal(name, pk, sk, q, nonce, n, part)
+                hs.append(Harness(name, unwind=max(70, n + 30), timeout=2400, mem_gb=16, site="box (literal keys):" + part,
+                                  desc="%s; literal keys and shared secret, symbolic %d-byte message" % (what, n), bounds={"message_len": n}))
             name = "c01_object_secretbox_k%d_n%d" % (i, n)
             src += h_object_secretbox(name, key, nonce, n)
             hs.append(Harness(name, unwind=max(70, n + 30), timeout=2400, site="DryocSecretBox (literal key)",
